@@ -1,6 +1,6 @@
 (* C07 — all encoding entry points and bulk fast paths agree. *)
 Require Import Scale.Bytes Scale.Eres Scale.Prog Scale.ProgFacts Scale.ProgMore Scale.Chunks Scale.Monitors Scale.CompactImpl
-  Scale.CompactSpec Scale.CompactProofs Scale.CompactTheorems Scale.Utf8 Scale.Codec Scale.CodecEnc Scale.CodecDec Scale.CodecRt Scale.CodecMore.
+  Scale.CompactSpec Scale.CompactProofs Scale.CompactTheorems Scale.Utf8 Scale.Codec Scale.CodecEnc Scale.CodecDec Scale.CodecRt Scale.CodecMore Scale.Entry.
 
 (* the streaming output only ever appends: encode_to into an output holding [out] leaves
    [out ++ encode v]; using_encoded hands over exactly encode v; encoded_size is its length.
@@ -44,8 +44,36 @@ Example C07_nonvacuous :
   OOk [VN 1; VN 2; VN 3] [xff].
 Proof. vm_compute. reflexivity. Qed.
 
+(* the default methods of the Encode trait (Entry.v: encode_to -> using_encoded -> encode ->
+   encode_to, encoded_size -> encode_to): whatever subset of them an impl overrides, if the
+   overrides all denote one byte string B then every entry point that answers describes B (the
+   size-only one as its length); with at least one of the three byte-producing methods overridden
+   every entry point answers within three calls; with none it never does (finding F1) *)
+Theorem C07_consistent_overrides_agree : forall i B, consistent i B ->
+  (forall fuel e b, resolve fuel i e = Some b -> b = B) /\
+  (forall fuel n, resolve_size fuel i = Some n -> n = N.of_nat (List.length B)).
+Proof. intros i B H. split; [exact (consistent_entry_points_agree i B H)|exact (consistent_size_agrees i B H)]. Qed.
+
+Theorem C07_entry_points_terminate : forall i e fuel,
+  overrides_some i = true -> (3 <= fuel)%nat -> resolve fuel i e <> None.
+Proof. exact entry_points_terminate. Qed.
+
+Theorem C07_all_default_diverges : forall i e, overrides_some i = false -> forall fuel, resolve fuel i e = None.
+Proof. exact all_default_diverges. Qed.
+
+Example C07_entry_nonvacuous :
+  let i := {| o_encode_to := None; o_encode := None; o_using := Some [x01; x02]; o_size := None |} in
+  consistent i [x01; x02] /\ resolve 3 i EEncode = Some [x01; x02] /\ resolve_size 3 i = Some 2.
+Proof.
+  cbv zeta. split; [|split; vm_compute; reflexivity].
+  unfold consistent. cbn. repeat split; intros; try discriminate. congruence.
+Qed.
+
 Print Assumptions C07_entry_points_agree.
 Print Assumptions C07_bulk_vec_is_elementwise.
 Print Assumptions C07_bulk_array_is_elementwise.
 Print Assumptions C07_chunked_items_is_repetition.
 Print Assumptions C07_two_slices.
+Print Assumptions C07_consistent_overrides_agree.
+Print Assumptions C07_entry_points_terminate.
+Print Assumptions C07_all_default_diverges.
